@@ -1,7 +1,6 @@
 package documentstore
 
 import (
-	"fmt"
 	"sync"
 
 	ipfslog "berty.tech/go-ipfs-log"
@@ -63,7 +62,9 @@ func (i *documentIndex) UpdateIndex(oplog ipfslog.Log, _ []ipfslog.Entry) error 
 	for idx := range entries {
 		item, err := operation.ParseOperation(entries[size-idx-1])
 		if err != nil {
-			return fmt.Errorf("unable to parse log documentstore operation: %w", err)
+			// an entry whose payload is not an operation changes nothing: giving
+			// up here would keep every entry below it out of the view for good
+			continue
 		}
 
 		if item.GetOperation() == "PUTALL" {
@@ -82,6 +83,12 @@ func (i *documentIndex) UpdateIndex(oplog ipfslog.Log, _ []ipfslog.Entry) error 
 		key := item.GetKey()
 		if key == nil || *key == "" {
 			// ignoring entries with nil or empty keys
+			continue
+		}
+
+		// an operation this view does not apply must not shadow the older
+		// operations on its key either
+		if op := item.GetOperation(); op != "PUT" && op != "DEL" {
 			continue
 		}
 
